@@ -60,18 +60,18 @@ func next() uint64 {
 	return v
 }
 
-func Rune() rune               { return rune(int32(next())) }
-func RuneASCII() rune          { return rune(int32(next())) }
-func RuneIn(set string) rune   { return rune(int32(next())) }
-func Byte() byte               { return byte(next()) }
-func ByteIn(set string) byte   { return byte(next()) }
-func Int64() int64             { return int64(next()) }
-func Int() int                 { return int(next()) }
-func Uint64() uint64           { return next() }
-func Uint() uint               { return uint(next()) }
-func Bool() bool               { return next() != 0 }
-func IntRange(lo, hi int) int  { return int(next()) }
-func Choice(n int) int         { return int(next()) }
+func Rune() rune              { return rune(int32(next())) }
+func RuneASCII() rune         { return rune(int32(next())) }
+func RuneIn(set string) rune  { return rune(int32(next())) }
+func Byte() byte              { return byte(next()) }
+func ByteIn(set string) byte  { return byte(next()) }
+func Int64() int64            { return int64(next()) }
+func Int() int                { return int(next()) }
+func Uint64() uint64          { return next() }
+func Uint() uint              { return uint(next()) }
+func Bool() bool              { return next() != 0 }
+func IntRange(lo, hi int) int { return int(next()) }
+func Choice(n int) int        { return int(next()) }
 
 // Str returns a string of n arbitrary ASCII bytes.
 func Str(n int) string {
@@ -132,6 +132,15 @@ func PanicNil() int { return PanicNilValue }
 // Symbolic reports whether the harness runs under the engine.
 func Symbolic() bool { return false }
 func Steps() int     { return 0 }
+
+// And and Or combine conditions without short-circuit control flow (under the
+// engine: one term instead of a fork).
+func And(a, b bool) bool { return a && b }
+func Or(a, b bool) bool  { return a || b }
+
+// SetFS installs the file-system model used by the engine's os stubs; natively
+// it is ignored (replay materialises the tree on disk instead).
+func SetFS(fs interface{}) {}
 
 // Concrete forces s to a concrete value (identity natively).
 func Concrete(s string) string { return s }
